@@ -3,7 +3,13 @@
 1. CrossHair's replacement for ``bytes()`` ignores ``__bytes__`` on iterable
    objects (``bytes(NameValueRecord)`` raised TypeError under analysis only).
 2. The search RNG is a constant; honour VERIF_SEED.
+3. The pure-Python idna/punycode codecs, when traced, hand a SymbolicBytes back to
+   the C codec machinery ("encoder returned 'SymbolicBytes' instead of 'bytes'"),
+   which CrossHair then treats as an ignorable attempt and never closes the path
+   tree.  They are run untraced on realised arguments instead (stdlib, outside
+   the claim; realisation is a decision-tree node, so exhaustion stays sound).
 """
+import codecs
 import os
 import random
 
@@ -23,6 +29,32 @@ def install():
         return orig(*a, **k)
 
     _PATCH_REGISTRATIONS[bytes] = _bytes
+
+    from crosshair.tracers import NoTracing, is_tracing
+    from crosshair.core import deep_realize
+    import encodings.idna
+    import encodings.punycode
+
+    def _untraced(orig):
+        def wrapper(self, input, errors='strict'):
+            if not is_tracing():
+                return orig(self, input, errors)
+            with NoTracing():
+                return orig(self, deep_realize(input), deep_realize(errors))
+        wrapper._verif_untraced = True
+        return wrapper
+    for mod in (encodings.idna, encodings.punycode):
+        for meth in ('encode', 'decode'):
+            f = getattr(mod.Codec, meth)
+            if not getattr(f, '_verif_untraced', False):
+                setattr(mod.Codec, meth, _untraced(f))
+    # str.encode('idna') reaches the codec through the C registry, which caches bound methods: flush that cache
+    import encodings
+    for name in ('idna', 'punycode'):
+        encodings._cache.pop(name, None)
+    _dummy = lambda name: None
+    codecs.register(_dummy)
+    codecs.unregister(_dummy)
 
     seed = os.environ.get('VERIF_SEED')
     if seed not in (None, '', '0'):
